@@ -26,7 +26,7 @@ inductive TS
   | preempt (body : TS)
   deriving Repr, Inhabited
 
-partial def exitModesOf : TS → Nat
+def exitModesOf : TS → Nat
   | .block _ m => m
   | .ifb _ t e => Nat.lor (exitModesOf t) (exitModesOf e)
   | .loop c body _ =>
@@ -45,48 +45,65 @@ def isAssignableTE : TE → Option Bool      -- some const? for assignable nodes
 
 def arithCls (op : String) : Option BinOp := arithOpOf op
 
-/-- `Declaration.evaluate` -/
-def tcDecl (env : Env) (n : List CP) (ty : Ty) (const : Bool) (init : TE) : R (Env × TS) := do
+/-- the redeclaration check of `Declaration.evaluate` (it precedes the evaluation of the initialiser) -/
+def checkRedecl (env : Env) (n : List CP) : R Unit :=
   match env.lookup n with
   | some _ => if env.isGlobal || env.inLocals n then throw (.tc "Redeclaration of variable") else pure ()
   | none => pure ()
+
+/-- `Declaration.evaluate` -/
+def tcDecl (env : Env) (n : List CP) (ty : Ty) (const : Bool) (init : TE) : R (Env × TS) := do
+  checkRedecl env n
   let i ← coerce init ty
   match i with
   | .cast .vol _ => throw (.tc "Cannot declare as const with non-const reference initializer")
-  | _ => pure ()
-  pure (env.declare ⟨n, ty, const, i⟩, .decl n ty const i)
+  | _ => pure (env.declare ⟨n, ty, const, i⟩, .decl n ty const i)
+
+/-- `Assignment.evaluate` -/
+def tcAssign (env : Env) (l r : PExpr) : R (Env × TS) := do
+  let lk ← tcExpr env l
+  match isAssignableTE lk with
+  | some false =>
+    let e ← tcExpr env r
+    let e ← coerce e (typeOf lk)
+    pure (env, .assign lk e)
+  | _ => throw (.tc "Cannot assign to const")
+
+/-- how a typed statement changes the exit modes collected so far in a block, and whether it is a `continue` -/
+def stepMode (mode : Nat) (t : TS) : Nat × Bool :=
+  let none_ := em "NONE"
+  match t with
+  | .block _ _ | .ifb _ _ _ | .loop _ _ _ | .tryb _ _ _ | .preempt _ => (emReplace mode none_ (exitModesOf t), false)
+  | .ret _ => (emReplace mode none_ (em "RETURN"), false)
+  | .brk => (emReplace mode none_ (em "BREAK"), false)
+  | .cont => (mode, true)
+  | .expr (.call n fl args _ _) =>
+    if fl == .defeat && n == cps "is_defeat" && args.isEmpty then (emReplace mode none_ (em "DEFEAT"), false)
+    else if fl == .none && (n == cps "all_is_win" || n == cps "all_is_broken") && args.isEmpty then
+      (emReplace mode none_ (em "LOOP"), false)
+    else if fl == .defeat then (Nat.lor mode (em "DEFEAT"), false)
+    else (mode, false)
+  | _ => (mode, false)
 
 mutual
-partial def tcStmt (env : Env) : PStmt → R (Env × TS)
+def tcStmt (env : Env) : PStmt → R (Env × TS)
   | .expr e => do let t ← tcExpr env e; pure (env, .expr t)
   | .decl n ty c init => do
-    -- the redeclaration check precedes the evaluation of the initialiser
-    match env.lookup n with
-    | some _ => if env.isGlobal || env.inLocals n then throw (.tc "Redeclaration of variable") else pure ()
-    | none => pure ()
+    checkRedecl env n
     let i ← tcExpr env init
     tcDecl env n ty c i
   | .vla n el c len => do
-    match env.lookup n with
-    | some _ => if env.isGlobal || env.inLocals n then throw (.tc "Redeclaration of variable") else pure ()
-    | none => pure ()
+    checkRedecl env n
     let l ← tcExpr env len
     let l ← coerce l .int
     tcDecl env n (.arr el c) true (.arrinit el l)
-  | .assign l r => do
-    let lk ← tcExpr env l
-    match isAssignableTE lk with
-    | some false =>
-      let e ← tcExpr env r
-      let e ← coerce e (typeOf lk)
-      pure (env, .assign lk e)
-    | _ => throw (.tc "Cannot assign to const")
+  | .assign l r => tcAssign env l r
   | .incassign l r op => do
     match arithCls op with
     | none => throw (.internal "bad compound operator")
     | some aop =>
       -- type-equivalent assignment  l = l op r
-      let (_, eq) ← tcStmt env (.assign l (.bin op l r))
+      let (_, eq) ← tcAssign env l (.bin op l r)
       let lk ← match eq with | .assign lk _ => pure lk | _ => throw (.internal "equiv")
       let e ← tcExpr env r
       pure (env, .incassign lk e aop (typeOf lk))
@@ -103,7 +120,7 @@ partial def tcStmt (env : Env) : PStmt → R (Env × TS)
       | none => if rt != .empty then throw (.tc "Missing return value") else pure (env, .ret none)
   | .brk => pure (env, .brk)
   | .cont => pure (env, .cont)
-  | .block ss _ => do let b ← tcBlock env ss; pure (env, b)
+  | .block ss _ => do let b ← tcBlockGo env.child ss [] (em "NONE") false; pure (env, b)
   | .ifb c t e => do
     let tb ← tcStmt env t
     let cc ← tcExpr env c
@@ -124,32 +141,21 @@ partial def tcStmt (env : Env) : PStmt → R (Env × TS)
     let b ← tcStmt env body
     pure (env, .preempt b.2)
 
-/-- `CodeBlock.evaluate`: a child scope, reachability and exit modes -/
-partial def tcBlock (env : Env) (ss : List PStmt) : R TS := do
-  let rec go (env : Env) (ss : List PStmt) (acc : List TS) (mode : Nat) (foundContinue : Bool) : R TS :=
-    match ss with
-    | [] => pure (.block acc.reverse mode)
-    | s :: rest =>
-      if !emHas mode "NONE" || foundContinue then
-        if env.lint then throw (.tc "Unreachable statement") else pure (.block acc.reverse mode)
-      else do
-        let (env', t) ← tcStmt env s
-        let none_ := em "NONE"
-        let (mode', fc) := match t with
-          | .block _ _ | .ifb _ _ _ | .loop _ _ _ | .tryb _ _ _ | .preempt _ => (emReplace mode none_ (exitModesOf t), false)
-          | .ret _ => (emReplace mode none_ (em "RETURN"), false)
-          | .brk => (emReplace mode none_ (em "BREAK"), false)
-          | .cont => (mode, true)
-          | .expr (.call n fl args _ _) =>
-            if fl == .defeat && n == cps "is_defeat" && args.isEmpty then (emReplace mode none_ (em "DEFEAT"), false)
-            else if fl == .none && (n == cps "all_is_win" || n == cps "all_is_broken") && args.isEmpty then
-              (emReplace mode none_ (em "LOOP"), false)
-            else if fl == .defeat then (Nat.lor mode (em "DEFEAT"), false)
-            else (mode, false)
-          | _ => (mode, false)
-        go env' rest (t :: acc) mode' (foundContinue || fc)
-  go env.child ss [] (em "NONE") false
+/-- the loop of `CodeBlock.evaluate`: reachability and exit modes -/
+def tcBlockGo (env : Env) (ss : List PStmt) (acc : List TS) (mode : Nat) (foundContinue : Bool) : R TS :=
+  match ss with
+  | [] => pure (.block acc.reverse mode)
+  | s :: rest =>
+    if !emHas mode "NONE" || foundContinue then
+      if env.lint then throw (.tc "Unreachable statement") else pure (.block acc.reverse mode)
+    else do
+      let (env', t) ← tcStmt env s
+      let (mode', fc) := stepMode mode t
+      tcBlockGo env' rest (t :: acc) mode' (foundContinue || fc)
 end
+
+/-- `CodeBlock.evaluate`: a child scope, reachability and exit modes -/
+def tcBlock (env : Env) (ss : List PStmt) : R TS := tcBlockGo env.child ss [] (em "NONE") false
 
 structure TFunc where
   name : List CP
@@ -160,31 +166,40 @@ structure TFunc where
   body : TS
   deriving Repr, Inhabited
 
-partial def hasPreempt : PStmt → Bool
-  | .block ss _ => ss.any hasPreempt
+mutual
+def hasPreempt : PStmt → Bool
+  | .block ss _ => hasPreemptAny ss
   | .ifb _ t e => hasPreempt t || hasPreempt e
   | .loop _ b k => hasPreempt b || hasPreempt k
   | .tryb b _ h => hasPreempt b || hasPreempt h
   | .preempt _ => true
   | _ => false
+def hasPreemptAny : List PStmt → Bool
+  | [] => false
+  | s :: rest => hasPreempt s || hasPreemptAny rest
+end
+
+/-- the end of `FuncDefinition.evaluate`: the exit modes of the body decide whether a `return;` is appended -/
+def finishBody (fl : Flavor) (ret : Ty) (body : TS) (mode : Nat) : R TS :=
+  if emHas mode "BREAK" then throw (.internal "assert BREAK not in exit_modes")
+  else if emHas mode "DEFEAT" && fl != .defeat then throw (.internal "assert DEFEAT only in defeat functions")
+  else if emHas mode "NONE" then
+    if ret != .empty then throw (.tc "Missing return statement") else
+    match body with
+    | .block stmts m => pure (TS.block (stmts ++ [.ret none]) (emReplace m (em "NONE") (em "RETURN")))
+    | b => pure b
+  else pure body
+
+def bodyStmts : PStmt → List PStmt
+  | .block ss _ => ss
+  | s => [s]
 
 def tcFunc (env : Env) (f : PFunc) : R TFunc := do
-  let env0 : Env := { env.child with retTy := some f.ret }
   let env1 ← f.params.foldlM (fun (e : Env) (p : List CP × Ty × Bool) => do
       let (e', _) ← tcDecl e p.1 p.2.1 p.2.2 (.param p.2.1)
-      pure e') env0
-  let ss := match f.body with | .block ss _ => ss | s => [s]
-  let body ← tcBlock env1 ss
-  let mode := exitModesOf body
-  if emHas mode "BREAK" then throw (.internal "assert BREAK not in exit_modes")
-  if emHas mode "DEFEAT" && f.fl != .defeat then throw (.internal "assert DEFEAT only in defeat functions")
-  let body ←
-    if emHas mode "NONE" then
-      if f.ret != .empty then throw (.tc "Missing return statement") else
-      match body with
-      | .block stmts m => pure (TS.block (stmts ++ [.ret none]) (emReplace m (em "NONE") (em "RETURN")))
-      | b => pure b
-    else pure body
+      pure e') { env.child with retTy := some f.ret }
+  let body ← tcBlock env1 (bodyStmts f.body)
+  let body ← finishBody f.fl f.ret body (exitModesOf body)
   pure ⟨f.name, f.fl, f.ret, hasPreempt f.body, f.params.map (fun p => (p.1, p.2.1)), body⟩
 
 structure TProgram where
